@@ -750,3 +750,31 @@ MUTANTS += [
     writer->buffer_used = 0;''')],
      'expect': {'C12': None, 'C04': None, 'C09': None}},
 ]
+
+MUTANTS += [
+    # type-byte bases taken from a read-only table instead of literals (const data, no writable static)
+    {'name': 'silent_writer_const_table', 'edits': [(W, '''static uint8_t _int_pack_size(int64_t length, uint8_t *buffer, bool is_double)
+{''', '''static const uint8_t _type_base[4] = { BINSON_DEF_INT8, BINSON_DEF_DOUBLE, BINSON_DEF_STRINGLEN_INT8, BINSON_DEF_BYTESLEN_INT8 };
+
+static uint8_t _int_pack_size(int64_t length, uint8_t *buffer, bool is_double)
+{'''), (W, '            pack_buffer[0] = BINSON_DEF_INT8;', '            pack_buffer[0] = _type_base[0];'),
+        (W, '''            pack_buffer[0] = BINSON_DEF_STRINGLEN_INT8;
+            if (BINSON_TYPE_BYTES == type) {
+                pack_buffer[0] = BINSON_DEF_BYTESLEN_INT8;
+            }''', '''            pack_buffer[0] = _type_base[(BINSON_TYPE_BYTES == type) ? 3 : 2];''')],
+     'expect': {'C17': None, 'C05': None, 'C10': None, 'C04': None}},
+]
+
+MUTANTS += [
+    # C++ wrapper: results stored in named locals before they are tested; explicit throw instead of the helper
+    {'name': 'silent_cpp_results_in_locals', 'edits': [(CPP, '''    ifRuntimeError(binson_parser_init(&p, const_cast<uint8_t*>(data), size), "Parser init error");
+    deserialize(&p);''', '''    const bool initialised = binson_parser_init(&p, const_cast<uint8_t*>(data), size);
+    if (!initialised) {
+        throw std::runtime_error("Parser init error");
+    }
+    deserialize(&p);'''), (CPP, '''    ifRuntimeError(binson_parser_leave_object(p), "Parse error");
+}''', '''    bool left = binson_parser_leave_object(p);
+    ifRuntimeError(left, "Parse error");
+}''')],
+     'expect': {'C15': None}},
+]
